@@ -18,6 +18,7 @@ type Obligation struct {
 	Src    string
 	Func   string
 	Cover  bool // cover obligation: expected SAT (reachability)
+	Short  bool            // expected to stay open (pinned by a known finding): short timeouts, no retry
 	Hints  map[string]bool // labels of the quantified hypotheses this obligation may use (nil: all)
 	Status string
 	Solver string
@@ -384,7 +385,9 @@ func (vc *FuncVC) QueryGoal(ob *Obligation, choice map[string]string, goal strin
 				continue
 			}
 			if ob.Hints != nil && (strings.Contains(c, "(forall ") || strings.Contains(c, "(exists ")) {
-				if l := vc.consLabel[p+"\x00"+c]; !hintAllows(ob.Hints, l) && !(ob.Hints["requires"] && keepEntry[p]) {
+				// only hypotheses that come from specifications carry a label; the engine's own facts (append, slicing,
+				// range, typing) are always kept
+				if l, labelled := vc.consLabel[p+"\x00"+c]; labelled && !hintAllows(ob.Hints, l) {
 					continue // proof hint: this quantified hypothesis is not among the named ones
 				}
 			}
